@@ -87,8 +87,13 @@ func distOnPanic(c Case) Event {
 
 func floor128(d, s float64) int {
 	v := math.Floor(d / s * 128)
-	if math.IsNaN(v) || math.Abs(v) >= 1<<30 {
-		panic("distance out of range")
+	// distances on these lattices are below 2^12 units; a NaN or an infinite / huge value is itself the observation and
+	// is reported as a negative sentinel, which the specification rejects by value
+	if math.IsNaN(v) {
+		return -1
+	}
+	if math.Abs(v) >= 1<<20 {
+		return -2
 	}
 	return int(v)
 }
